@@ -143,7 +143,7 @@ PROPS = {
         explanation='Chunk arithmetic proved; blob operations bounded.',
     ),
     'C20': dict(
-        v=['C20_ids', 'C20_rle', 'C06_sparse'],
+        v=['C20_ids', 'C20_rle', 'C06_sparse', 'C20_frame'],
         k=[('tensor_chain', ['c20_frame_flags_roundtrip', 'c20_method_from_flags_total', 'c20_length_prefix_roundtrip']),
            ('tensor_store', ['c07_header_roundtrip_fields', 'c07_header_roundtrip_bytes', 'c07_header_validate_exact'])],
         b=['c20_ids'],
